@@ -3,19 +3,30 @@
      {"ev":"reset","kind":..}
      {"ev":"csend","k":n,"n":bytes}      {"ev":"release"}
      {"ev":"brecv","k":n,"n":bytes}      {"ev":"disc"}
-     {"ev":"end","alive":b} *)
-EXTENDS PluginQueueObs, TraceLib
+     {"ev":"end","alive":b}
+   Runs are independent: the first line of a run that the acceptor does not allow is
+   recorded (rej) and the rest of that run is skipped, so one TLC pass judges every run. *)
+EXTENDS PluginQueueObs, TraceLib, Json
 
-tv == <<avars, l>>
-TInit == CursorInit /\ AInit
+VARIABLES rej,    \* line numbers of the first unexplained line of every rejected run
+          skip    \* the current run was rejected: swallow its remaining lines
+tv == <<avars, rej, skip, l>>
+TInit == CursorInit /\ AInit /\ rej = <<>> /\ skip = FALSE
+
+Reject == rej' = Append(rej, l) /\ skip' = TRUE /\ UNCHANGED avars
+Keep == UNCHANGED <<rej, skip>>
+
 TReset == /\ IsEv("reset")
           /\ asent' = <<>> /\ abytes' = 0 /\ arecv' = 0 /\ apre' = 0 /\ apreb' = 0
-          /\ arel' = FALSE /\ adisc' = FALSE
-TSend == IsEv("csend") /\ ASend(Rec.k, Rec.n)
-TRel == IsEv("release") /\ ARelease
-TRecv == IsEv("brecv") /\ ARecv(Rec.k, Rec.n)
-TDisc == IsEv("disc") /\ ADisc
-TEnd == IsEv("end") /\ AEnd(Rec.alive)
-TNext == TReset \/ TSend \/ TRel \/ TRecv \/ TDisc \/ TEnd
+          /\ arel' = FALSE /\ adisc' = FALSE /\ skip' = FALSE /\ UNCHANGED rej
+TSkip == /\ skip /\ l <= Len(Trace) /\ Trace[l].ev # "reset" /\ l' = l + 1
+         /\ UNCHANGED <<avars, rej, skip>>
+TSend == ~skip /\ IsEv("csend") /\ IF GSend(Rec.k, Rec.n) THEN ASend(Rec.k, Rec.n) /\ Keep ELSE Reject
+TRel == ~skip /\ IsEv("release") /\ ARelease /\ Keep
+TRecv == ~skip /\ IsEv("brecv") /\ IF GRecv(Rec.k, Rec.n) THEN ARecv(Rec.k, Rec.n) /\ Keep ELSE Reject
+TDisc == ~skip /\ IsEv("disc") /\ IF GDisc THEN ADisc /\ Keep ELSE Reject
+TEnd == ~skip /\ IsEv("end") /\ IF GEnd(Rec.alive) THEN AEnd(Rec.alive) /\ Keep ELSE Reject
+TNext == TReset \/ TSkip \/ TSend \/ TRel \/ TRecv \/ TDisc \/ TEnd
 TSpec == TInit /\ [][TNext]_tv
+Verdict == (l > Len(Trace)) => PrintT(<<"REJECTED", ToJson([lines |-> rej])>>)
 =============================================================================
